@@ -66,6 +66,47 @@ class Frame:
 DROPPED_RECEIVERS = ('logger', 'logging', 'warnings', 'traceback')
 
 
+def _mangle_private_names(cls_node):
+    """CPython's private name mangling: inside a class body every identifier __x (no trailing __) stands for _Class__x"""
+    if getattr(cls_node, '_mangled', False):
+        return
+    cls_node._mangled = True
+    owner = cls_node.name.lstrip('_')
+    if not owner:
+        return
+
+    def m(name):
+        if isinstance(name, str) and name.startswith('__') and not name.endswith('__') and '.' not in name:
+            return '_%s%s' % (owner, name)
+        return name
+
+    def walk(node):
+        for child in ast.iter_child_nodes(node):
+            if isinstance(child, ast.ClassDef):
+                child.name = m(child.name)
+                for sub in child.bases + child.keywords + child.decorator_list:
+                    fix(sub)
+                    walk(sub)
+                continue            # its body is mangled with its own name when it is executed
+            fix(child)
+            walk(child)
+
+    def fix(n):
+        if isinstance(n, ast.Attribute):
+            n.attr = m(n.attr)
+        elif isinstance(n, ast.Name):
+            n.id = m(n.id)
+        elif isinstance(n, (ast.FunctionDef, ast.AsyncFunctionDef)):
+            n.name = m(n.name)
+        elif isinstance(n, ast.arg):
+            n.arg = m(n.arg)
+        elif isinstance(n, ast.keyword) and n.arg:
+            n.arg = m(n.arg)
+    for stmt in cls_node.body:
+        fix(stmt)
+        walk(stmt)
+
+
 class Interp:
     def __init__(self, repo_root, path, cfg=None, modules=None):
         self.repo_root = repo_root
@@ -80,6 +121,7 @@ class Interp:
         self.call_depth = 0
         self.spec_mode = 0
         self.dropped = set()
+        self.interpreted = set()         # repository functions whose real body was executed symbolically
         self.obligation_sink = None     # callable(kind, name, cond, info)
         self.exc_classes = {}
         self.time_now = None
@@ -265,14 +307,16 @@ class Interp:
     def st_Expr(self, st, fr):
         if isinstance(st.value, ast.Constant):
             return      # docstring
-        if self.is_dropped_call(st.value):
+        if self.is_dropped_call(st.value, fr):
             return
         self.eval(st.value, fr)
 
-    def is_dropped_call(self, e):
+    def is_dropped_call(self, e, fr=None):
         if isinstance(e, ast.Call):
             f = e.func
             if isinstance(f, ast.Attribute) and isinstance(f.value, ast.Name) and f.value.id in DROPPED_RECEIVERS:
+                if fr is not None and isinstance(fr.module.attrs.get(f.value.id), Ext):
+                    return False        # a contract replaced the module's logger by a stub (c.patch): the call is real
                 self.dropped.add('%s.%s' % (f.value.id, f.attr))
                 return True
             if isinstance(f, ast.Name) and f.id == 'print':
@@ -395,6 +439,8 @@ class Interp:
         v = self.eval(st.exc, fr)
         if isinstance(v, ExcClass):
             v = ExcVal(v, ())
+        if isinstance(v, (str, int, float, PStr, PBytes, PList, tuple)) or v is None:
+            self.raise_py('TypeError', 'exceptions must derive from BaseException')
         if not isinstance(v, ExcVal):
             raise OutOfSubset('raise of %r' % (v,))
         if st.cause is not None:
@@ -557,6 +603,7 @@ class Interp:
         raise OutOfSubset('decorator %r' % (dv,))
 
     def st_ClassDef(self, st, fr):
+        _mangle_private_names(st)
         bases = [self.eval(b, fr) for b in st.bases]
         outer = getattr(fr, 'class_being_defined', None)
         qn = (outer.qualname + '.' if outer else '') + st.name
@@ -765,7 +812,20 @@ class Interp:
                 return x
             return GenIter(nxt)
         if isinstance(v, PDict):
-            return self.get_iter(tuple(v.keys)) if True else None
+            # live iteration, as CPython's dict iterator: a size change is detected at the next step
+            st = {'i': 0, 'n': len(v.keys), 'snap': list(v.keys)}
+
+            def nxt():
+                if len(v.keys) != st['n']:
+                    self.raise_py('RuntimeError', 'dictionary changed size during iteration')
+                if any(a is not b for a, b in zip(st['snap'], v.keys)):
+                    raise OutOfSubset('dict keys replaced (same size) during iteration')
+                if st['i'] >= len(v.keys):
+                    raise StopIter()
+                x = v.keys[st['i']]
+                st['i'] += 1
+                return x
+            return GenIter(nxt)
         if isinstance(v, PSet):
             return self.get_iter(tuple(v.items))
         if isinstance(v, RangeVal):
@@ -1065,7 +1125,7 @@ class Interp:
         return r
 
     def ex_Call(self, e, fr):
-        if self.is_dropped_call(e):
+        if self.is_dropped_call(e, fr):
             return None
         # super()
         if isinstance(e.func, ast.Name) and e.func.id == 'super':
@@ -1374,6 +1434,8 @@ class Interp:
         summ = self.summaries.get(key)
         if summ is not None and not summ.get('_active'):
             return summ['apply'](self, f, args, kwargs)
+        if not self.spec_mode:
+            self.interpreted.add(key)
         self.call_depth += 1
         if self.call_depth > self.cfg.get('max_depth', 60):
             self.call_depth -= 1
